@@ -18,7 +18,7 @@ from .. import cover, emmon, gen, monitors, ref
 LEVEL = 'exploration'
 JOBS = {'quick': 4, 'thorough': 16}
 REQUIRED_MONITORS = ('em_law_contract', 'equivalences_vs_nearest_anchor')
-REQUIRED_CLASSES = ('sequence:copy-of-the-map-after-reference-moved', 'reference:through-the-parsers', 'reference:bonds-with-colliding-number-strings', 'geometry:generic', 'geometry:linear-z', 'geometry:linear-x', 'geometry:linear-int',
+REQUIRED_CLASSES = ('target:single-precision-coordinates', 'sequence:copy-of-the-map-after-reference-moved', 'reference:through-the-parsers', 'reference:bonds-with-colliding-number-strings', 'geometry:generic', 'geometry:linear-z', 'geometry:linear-x', 'geometry:linear-int',
                     'geometry:linear-moved', 'geometry:partial-collinear', 'geometry:planar-xy', 'geometry:lattice',
                     'anchor:collinear', 'anchor:generic', 'scale:one', 'scale:uniform', 'placement:far',
                     'placement:on-atoms', 'shipped-pair', 'sequence:construction-object-after-other-calls')
@@ -111,6 +111,13 @@ def run_gen(ctx, case):
                 ctx.count('rejected_illconditioned_reference')
                 continue
             ctx.hit('reference:through-the-parsers')
+        if it % 10 == 7 and not through_files:
+            # the target's coordinates were assigned in single precision (as trajectory readers deliver them): the positions
+            # "at construction" are then exactly those single-precision values, and the law is stated on them
+            tpos = np.asarray(tpos, np.float32)
+            tgtm.atoms_positions = tpos
+            tpos = np.array(tgtm.atoms_positions, float)
+            ctx.hit('target:single-precision-coordinates')
         w = {'edges': edges, 'ref': pos, 'target': tpos, 's': s, 'geometry': info['geometry']}
         try:
             emap = ExchangeMap(refm, tgtm, s)
